@@ -13,6 +13,7 @@ pub mod c07;
 pub mod c17;
 pub mod c18;
 pub mod c19;
+pub mod c08;
 pub mod c09;
 pub mod c09b;
 pub mod c11;
@@ -24,7 +25,7 @@ pub mod c16;
 use crate::engine::{Ctx, Tier};
 use serde_json::Value;
 
-pub const ALL: &[&str] = &["C01", "C02", "C03", "C04", "C05", "C06", "C07", "C09", "C11", "C14", "C15", "C16", "C17", "C18", "C19"];
+pub const ALL: &[&str] = &["C01", "C02", "C03", "C04", "C05", "C06", "C07", "C08", "C09", "C11", "C14", "C15", "C16", "C17", "C18", "C19"];
 
 pub fn run(id: &str, tier: Tier, seed: u64) -> Option<i32> {
     macro_rules! go {
@@ -42,6 +43,7 @@ pub fn run(id: &str, tier: Tier, seed: u64) -> Option<i32> {
         "C05" => go!(c05, "C05"),
         "C06" => go!(c06, "C06"),
         "C07" => go!(c07, "C07"),
+        "C08" => go!(c08, "C08"),
         "C09" => go!(c09, "C09"),
         "C11" => go!(c11, "C11"),
         "C14" => go!(c14, "C14"),
@@ -63,6 +65,7 @@ pub fn replay(id: &str, v: &Value) -> Option<i32> {
         "C05" => c05::replay(v),
         "C06" => c06::replay(v),
         "C07" => c07::replay(v),
+        "C08" => c08::replay(v),
         "C09" => c09::replay(v),
         "C11" => c11::replay(v),
         "C14" => c14::replay(v),
